@@ -115,6 +115,10 @@ def generate(rng, tier):
                     "-9223372036854775809", "18446744073709551615", "18446744073709551616", "00000000000000000000001", "-0000000000000000000009", "99999999999999999999", "1" + "0" * 19):
             cases.append(Case("sum.parse", [enc(body + "FILE_SIZE=" + num + "\n")], meta={"fault": "intbound", "rep": True}))
             cases.append(Case("sum.parse", [enc(body + "SIZE_PKG=" + num + "\n")], meta={"fault": "intbound", "rep": True}))
+    # every text above also goes through the canonical-text decision (C07_canonical_text_iff): the model's syntactic
+    # predicate against "parses and prints back the same bytes"
+    for c in [c for c in cases if c.op == "sum.parse"]:
+        cases.append(Case("sum.canon", c.args, meta=dict(c.meta, canon=True), tag=c.tag))
     # is_completed against the setters: "set" means set, whatever the value - every variable in turn given a degenerate
     # value (empty text, no lines at all, one empty line, 0, i64::MIN) or left unset, the others set normally; and random subsets
     def setop(v, x):
@@ -174,6 +178,6 @@ def nontrivial(c):
 def stats(cases, obsI):
     d = {}
     for c, o in zip(cases, obsI):
-        k = str(c.meta.get("fault")) + "->" + (o or "None").split("|")[0][:12]
+        k = ("canon:" if c.meta.get("canon") else "") + str(c.meta.get("fault")) + "->" + (o or "None").split("|")[0][:12]
         d[k] = d.get(k, 0) + 1
     return d
